@@ -5,7 +5,7 @@
    decided by the verified monitor (the extracted wfb / contractb below, run on the real tree). *)
 From Coq Require Import List NArith Bool.
 From MW Require Import C05.Heap C05.TreeOps.
-From MW Require C05.ProofsWf C05.ProofsApi C05.ProofsExtra.
+From MW Require C05.ProofsWf C05.ProofsApi C05.ProofsExtra C05.Refs C05.ProofsRefs.
 Import ListNotations.
 
 (* The executable checker run by the monitor decides the declarative notion "the heap read from r is a
@@ -108,3 +108,38 @@ Example C05_append_attached_refuted :
   exists h, WF h 1 /\ wfb (append_child h 2 3) 1 = false.
 Proof. exact ProofsExtra.append_attached_refuted. Qed.
 Print Assumptions C05_append_attached_refuted.
+
+(* ---- fix_reference_nodes (treecleaner.py:1374-1404): the content-less <ref name=x/> u receives the nodes of the defining
+   <ref name=x>..</ref> d by append_child (which does not detach), then d is emptied - C05/Refs.v.  For every heap that is a
+   proper tree, every pair of distinct non-root nodes d, u with u childless, not a text leaf and outside d's subtree: the
+   document is a proper tree again. *)
+Theorem C05_refs_handover_preserves_WF : forall h r t d u sd,
+  tid t = r -> repr h None t -> NoDup (ids t) ->
+  d <> r -> u <> r -> d <> u ->
+  TreeOps.t_find d t = Some sd -> In u (ids t) -> ~ In u (ids sd) ->
+  kids h u = [] -> clsof h u <> c_Text ->
+  WF (Refs.handover h d u) r.
+Proof. exact ProofsRefs.handover_preserves_WF. Qed.
+Print Assumptions C05_refs_handover_preserves_WF.
+
+(* ... and when the definition is NOT emptied (the two bookkeeping tables of the pass indexed by different keys) the document
+   is never a proper tree, whatever non-empty definition d and other node u *)
+Theorem C05_refs_handover_without_emptying_breaks_WF : forall h r t d u c,
+  tid t = r -> repr h None t -> NoDup (ids t) ->
+  In d (ids t) -> In u (ids t) -> d <> u -> ~ In u (kids h d) -> In c (kids h d) ->
+  ~ WF (Refs.handover_noclear h d u) r.
+Proof. exact ProofsRefs.handover_noclear_breaks_WF. Qed.
+Print Assumptions C05_refs_handover_without_emptying_breaks_WF.
+
+(* non-vacuity: the hypotheses of both theorems hold of a section with <ref name=x/> and <ref name=x>w10 w11</ref> *)
+Example C05_refs_example :
+  (tid ProofsRefs.t_ref = 1 /\ repr ProofsRefs.h_ref None ProofsRefs.t_ref /\ NoDup (ids ProofsRefs.t_ref) /\
+   3 <> 1 /\ 2 <> 1 /\ 3 <> 2 /\
+   TreeOps.t_find 3 ProofsRefs.t_ref = Some (T 3 [T 4 []; T 5 []]) /\ In 2 (ids ProofsRefs.t_ref) /\
+   ~ In 2 (ids (T 3 [T 4 []; T 5 []])) /\
+   kids ProofsRefs.h_ref 2 = [] /\ clsof ProofsRefs.h_ref 2 <> c_Text /\ ~ In 2 (kids ProofsRefs.h_ref 3) /\
+   In 4 (kids ProofsRefs.h_ref 3))%N /\
+  (wfb (Refs.handover ProofsRefs.h_ref 3 2) 1 = true /\ words (Refs.handover ProofsRefs.h_ref 3 2) 1 = [10; 11] /\
+   wfb (Refs.handover_noclear ProofsRefs.h_ref 3 2) 1 = false)%N.
+Proof. exact ProofsRefs.handover_example. Qed.
+Print Assumptions C05_refs_example.
